@@ -15,6 +15,11 @@ Known sharing classes (the unchanged tree shows them; see KNOWN_FINDINGS.json):
   F6  circuit.copy() in cutting_decomposition.py shares the basis of pre-placed QPD gates with the result
   F10 cut_wires stores the input's operation objects in the new circuit
   F11 operations of basis.maps are stored in decomposed circuits / subexperiments without a copy
+  F19 separate_circuit: circuit.copy() shares the basis of pre-placed QPD gates with the subcircuits
+  F20 ndarray parameters (UnitaryGate matrix) are shared by Qiskit's instruction copy in every copying entry point
+  F21 an EMPTY cached definition circuit is shared by Qiskit's instruction copy
+  (F20 / F21 concern attributes the heap model does not represent: the roots satisfying the class predicate are removed
+   from the compared observation and recorded in the case; a case may carry several classes, all must be listed)
 A case whose ONLY deviations from the property belong to one class X that is listed (status "known", property C16)
 in KNOWN_FINDINGS.json is tagged known_class=X and emitted in the separate group "<entry>__known_X", whose checker
 compares with the model of the CURRENT (sharing) behaviour; every other case is compared with the model of the
@@ -56,7 +61,10 @@ KINDS = ["circuit", "operation", "basis", "list", "paulilist", "result", "other"
 F6_ENTRIES = ("pcq", "cut_gates", "partition_problem", "find_cuts")
 F10_ENTRIES = ("cut_wires",)
 F11_ENTRIES = ("generate", "dqi")
-ALL_CLASSES = ("F6", "F10", "F11")
+F19_ENTRIES = ("separate",)
+# entry points that hand out instruction objects made by QuantumCircuit.copy() / Instruction.copy()
+COPY_ENTRIES = ("pcq", "cut_gates", "partition_problem", "find_cuts", "separate", "dqi", "generate")
+ALL_CLASSES = ("F6", "F10", "F11", "F19", "F20", "F21")
 
 
 def known_classes():
@@ -98,6 +106,8 @@ class Walk:
         self.arrays = []
         self.roots = []
         self.hints = {}    # id -> role of a list ("coeffs", "maps", "map-slot", ...)
+        self.param_arrays = set()   # ids of ndarrays that are elements of an instruction's params list
+        self.def_circuits = set()   # ids of circuits that are the cached `_definition` of an instruction
 
     def _add(self, obj, kind, parent):
         i = id(obj)
@@ -147,14 +157,17 @@ class Walk:
                 return
             if not self._add(obj, "operation", parent):
                 return
+            for p_ in obj._params:
+                if isinstance(p_, np.ndarray):
+                    self.param_arrays.add(id(p_))
             self.visit(obj._params, id(obj), "params")
             if isinstance(obj, BaseQPDGate):
                 self.visit(obj._basis, id(obj))
-            # the cached definition; an EMPTY cached definition is skipped: Instruction.__deepcopy__ copies the definition
-            # only `if self._definition:` and an empty QuantumCircuit is falsy, so Qiskit itself shares it between a gate
-            # and its copies (observation, recorded in lib/props.d/C16.py)
+            # the cached definition (also an empty one: Instruction.__deepcopy__ copies the definition only
+            # `if self._definition:` and an empty QuantumCircuit is falsy, so Qiskit shares it with every copy - F21)
             d = getattr(obj, "_definition", None)
-            if isinstance(d, QuantumCircuit) and len(d.data) > 0:
+            if isinstance(d, QuantumCircuit):
+                self.def_circuits.add(id(d))
                 self.visit(d, id(obj))
             return
         if isinstance(obj, (PauliList, Pauli)):
@@ -485,11 +498,11 @@ class HeapBuilder:
 LABEL_POOL = ["A", "B", "C", 0, 1, "foo", (1, 2)]
 GATE_CLS = {"cx": CXGate, "rzz": RZZGate, "rzx": RZXGate, "swap": SwapGate, "cz": CZGate, "ryy": RYYGate, "crx": CRXGate}
 CUTTABLE = set(GATE_CLS)
-# C16_UNITARY=1 (opt-in, see the report): also put UnitaryGate instructions into INPUT circuits.  QuantumCircuit.copy()
-# shares their matrix array between the copy and the original, which the heap model does not represent, so these
-# cases are reported as an alias of kind "other" by every copying entry point.
-WITH_UNITARY = os.environ.get("C16_UNITARY") == "1"
-GATE_CLS["unitary"] = lambda: __import__("qiskit.circuit.library", fromlist=["UnitaryGate"]).UnitaryGate(np.eye(4))
+# UnitaryGate instructions in INPUT circuits: QuantumCircuit.copy() / Instruction.copy() copy the params LIST but not an
+# ndarray inside it, so every copying entry point shares the matrix with its result (known finding F20).  The heap model
+# has no ndarray parameters; the roots that satisfy the F20 predicate are taken out of the compared observation.
+WITH_UNITARY = True     # on by default: the array sharing it exposes is the known finding F20
+GATE_CLS["unitary"] = lambda: __import__("qiskit.circuit.library", fromlist=["UnitaryGate"]).UnitaryGate(RZXGate(0.375).to_matrix())
 BIG_SRC = ["swap", "rzx", "ryy", "crx"]       # bases with non-singleton gate objects (and 58 maps for swap / rzx)
 SMALL_SRC = ["cx", "rzz", "cz"]               # 6-map bases of singleton gates only
 
@@ -527,14 +540,14 @@ def rand_desc(rng, nq, ngates, p_pre=0.3, p_py=0.2, p_cw=0.0, barriers=True, src
                 last_pre = len(ops) - 1
                 if hist and rng.random() < 0.35:      # history: a map id was already selected on the pre-placed gate
                     ops[-1]["bid"] = int(rng.integers(0, 6))
-                # history: `.definition` of the gate was read (and cached) before the call.  Not for a KAK-path gate with a
-                # selected map (unless C16_UNITARY=1): its cached definition then holds UnitaryGate objects, circuit.copy()
-                # deep-copies the cached definition, and Qiskit's copy shares the matrix arrays (the UnitaryGate observation)
-                if hist and rng.random() < 0.35 and not (name == "rzx" and ops[-1].get("bid") is not None and not WITH_UNITARY):
+                # history: `.definition` of the gate was read (and cached) before the call.  For a KAK-path gate with a
+                # selected map the cached definition holds UnitaryGate objects; circuit.copy() deep-copies the cached
+                # definition and shares the matrix arrays (second route of F20); an empty cached definition is shared (F21)
+                if hist and rng.random() < 0.35:
                     ops[-1]["read_def"] = True
         elif r < p_pre + p_py:
             name = ["rzx", "rzz"][int(rng.integers(0, 2))]
-            if WITH_UNITARY and rng.random() < 0.5:
+            if WITH_UNITARY and rng.random() < 0.35:
                 name = "unitary"
             ops.append(dict(g=name, q=[a, b], p=_params_for(name, rng), py=True))
         else:
@@ -702,7 +715,7 @@ def examine(inputs, call, outs_of, inplace, fresh_inputs=None):
     changed_other = snap_args(inputs[1:]) != s0_other      # any argument besides the first (the circuit) modified
     w1 = walk(outs_of(out1))
     io = alias_roots(win, w1)
-    rec = dict(changed=changed, changed_other=changed_other, io=kind_counts(io), io_roots=io)
+    rec = dict(changed=changed, changed_other=changed_other, io=kind_counts(io), io_roots=io, win=win)
     if inplace:
         rec.update(oo=[0] * len(KINDS), oo_roots=[], edits=0, edit_hits_inputs=False, edit_hits_earlier=False,
                    later_call_changed=False, later_call_error=None, fresh_later_changed=[],
@@ -745,28 +758,44 @@ def input_bases(circs):
     return out
 
 
-def classify(entry, rec, circs):
-    """the known class explaining ALL deviations of this record, or None (no deviation / unexplained deviation)."""
-    roots = rec["io_roots"] + rec["oo_roots"]
-    deviates = (bool(roots) or rec["changed"] or rec["edit_hits_inputs"] or rec["edit_hits_earlier"] or rec["later_call_changed"]
-                or rec.get("fresh_later_changed"))
-    if not deviates or rec["changed"] or rec.get("fresh_later_changed"):
-        return None
-    if not roots:
-        return None
-    bases = input_bases(circs)
-    if entry in F6_ENTRIES:
-        if all(k == "basis" and any(o is b for b in bases) for k, o in roots):
+def root_class(entry, kind, obj, bases, ops, mapops, win):
+    """the sharing class of one alias root: decided by the entry point and by WHICH object is shared"""
+    if kind == "basis" and any(obj is b for b in bases):
+        if entry in F6_ENTRIES:
             return "F6"
-    if entry in F10_ENTRIES:
-        ops = [stable_op(qc, k) for qc in circs for k in range(len(qc.data))]
-        if all(k == "operation" and any(o is p for p in ops) for k, o in roots):
-            return "F10"
-    if entry in F11_ENTRIES:
-        mapops = [o for b in bases for m in b.maps for l in m for o in l]
-        if all(k == "operation" and any(o is p for p in mapops) for k, o in roots):
-            return "F11"
+        if entry in F19_ENTRIES:
+            return "F19"
+    if kind == "operation" and entry in F10_ENTRIES and any(obj is p for p in ops):
+        return "F10"
+    if kind == "operation" and entry in F11_ENTRIES and any(obj is p for p in mapops):
+        return "F11"
+    if kind == "array" and entry in COPY_ENTRIES and id(obj) in win.param_arrays:
+        return "F20"          # an ndarray parameter of an instruction reachable from the arguments
+    if kind == "circuit" and entry in COPY_ENTRIES and id(obj) in win.def_circuits:
+        return "F21"          # the cached definition circuit of an instruction reachable from the arguments
     return None
+
+
+def classify(entry, rec, circs):
+    """(classes, per-class root counts) when EVERY alias root belongs to a sharing class, else None.
+    classes is [] when there is no deviation at all."""
+    roots_io, roots_oo = rec["io_roots"], rec["oo_roots"]
+    if rec["changed"] or rec.get("fresh_later_changed"):
+        return None
+    if not roots_io and not roots_oo:
+        effects = rec["edit_hits_inputs"] or rec["edit_hits_earlier"] or rec["later_call_changed"]
+        return None if effects else ([], {})
+    bases = input_bases(circs)
+    ops = [stable_op(qc, k) for qc in circs for k in range(len(qc.data))]
+    mapops = [o for b in bases for m in b.maps for l in m for o in l]
+    counts = {}
+    for which, roots in (("io", roots_io), ("oo", roots_oo)):
+        for k, o in roots:
+            c = root_class(entry, k, o, bases, ops, mapops, rec["win"])
+            if c is None:
+                return None
+            counts.setdefault(c, {"io": 0, "oo": 0})[which] += 1
+    return sorted(counts), counts
 
 
 def monitor_ocopy(w, qc):
@@ -1017,14 +1046,28 @@ def run_unit(unit):
             raise
         except ValueError as e:
             return dict(status="refused", entry=entry, detail="setup: " + str(e)[:160], contracts=col.contracts)
-        cls = classify(entry, rec, circs)
-        tag = cls if (cls in known) else None
+        cc = None if inplace else classify(entry, rec, circs)
+        classes, counts = cc if cc else ([], {})
+        cls = "+".join(classes) if classes else None
+        tag = cls if (classes and all(c in known for c in classes)) else None
         effects = bool(rec["edit_hits_inputs"] or rec["edit_hits_earlier"] or rec["later_call_changed"]
                        or rec.get("fresh_later_changed"))
         # untagged cases: the property-satisfying model also predicts that edits of a result have no effect at all
         changed_obs = bool(rec["changed"]) or (effects and not tag and not inplace)
+        io_obs, oo_obs = list(rec["io"]), list(rec["oo"])
+        unmodelled = {}
+        if tag:
+            # F20 / F21 live in attributes the heap model does not represent (ndarray parameters, cached definitions):
+            # exactly the roots that satisfy the class predicate are taken out of the observation that is compared with
+            # the model of the current behaviour; every other root stays in
+            for c, idx in (("F20", KINDS.index("other")), ("F21", KINDS.index("circuit"))):
+                if c in counts:
+                    io_obs[idx] -= counts[c]["io"]
+                    oo_obs[idx] -= counts[c]["oo"]
+                    unmodelled[c] = counts[c]
         js = record_json(entry, inplace, d, lit, rec, cls, tag)
         js["crashed"] = None
+        js["unmodelled_roots"] = unmodelled
         no_alias = not rec["io_roots"] and not rec["oo_roots"]
         if not inplace:
             col.contract("no alias => destructive edits of a result have no effect", (not no_alias) or not effects)
@@ -1032,7 +1075,7 @@ def run_unit(unit):
             col.contract("an in-place call returns its circuit argument", bool(rec.get("result_is_arg")))
         return dict(status="ok", entry=entry, name=name, group=name + (f"__known_{tag}" if tag else ""),
                     checker="chk_cur" if tag else "chk_rep",
-                    coq="(" + ", ".join([hb.heap().s, "(" + lit + ")", coq((changed_obs, rec["io"], rec["oo"]))]) + ")",
+                    coq="(" + ", ".join([hb.heap().s, "(" + lit + ")", coq((changed_obs, io_obs, oo_obs))]) + ")",
                     js=js, cls=cls or "none", nobj=len(hb.objs), contracts=col.contracts)
     except BaseException as e:  # noqa: BLE001  the implementation (or the set-up that uses it) crashed
         msg = f"{type(e).__name__}: {str(e)[:200]}"
@@ -1131,10 +1174,10 @@ def generate(rng, tier, outdir):
                                          obs=(["I" * nq] if auto else rand_obs(rng, nq)) if rng.random() < 0.6 else None))
 
     # separate_circuit (utils.transforms): explicit and automatic labels, wide barriers.  Pre-placed QPD gates only with
-    # C16_SEPARATE_QPD=1: circuit.copy() shares their basis here exactly as in F6, but at a call site that is not listed
+    # circuit.copy() shares the basis of pre-placed QPD gates here exactly as in F6: known finding F19 (own call site)
     for it in range(N["separate"]):
         nq = int(rng.integers(2, 5))
-        cd = rand_desc(rng, nq, int(rng.integers(1, 7)), p_pre=0.3 if os.environ.get("C16_SEPARATE_QPD") == "1" else 0.0, p_py=0.3)
+        cd = rand_desc(rng, nq, int(rng.integers(1, 7)), p_pre=0.3 if it % 3 != 1 else 0.0, p_py=0.3)
         if it % 2 == 0:
             cd["ops"].insert(int(rng.integers(0, len(cd["ops"]) + 1)), dict(g="barrier", q=list(range(nq))))
         # labels that keep every multi-qubit instruction inside one partition: one label, or automatic
@@ -1261,8 +1304,8 @@ def generate(rng, tier, outdir):
              "separate_circuit with wide barriers; random PauliLists; exact (num_samples=inf) and seeded finite generation, both "
              "call forms; decompose_qpd_instructions with explicit map ids, map_ids=None and two-element instruction ids; "
              "reconstruction from SamplerResult (dict and plain form) and PrimitiveResult; every call also in its "
-             "in-place form where one exists. UnitaryGate instructions in INPUT circuits are excluded (Qiskit's own copy shares "
-             "their matrix; reported as an observation). distinct = distinct Coq case literal; non-trivial = heap with > 2 objects",
+             "in-place form where one exists. UnitaryGate instructions in input circuits and pre-placed gates in separate_circuit "
+             "are generated (known findings F20 / F19). distinct = distinct Coq case literal; non-trivial = heap with > 2 objects",
         extra=dict(extra=dict(known_classes=sorted(known))),
     )
 
@@ -1398,4 +1441,61 @@ def witness(name):
         return dict(fails=bool(basis_changed and later),
                     detail=f"edited params of {n} ry operation(s) of returned subexperiments; input basis changed: {basis_changed}; "
                            f"a later generate_cutting_experiments call returns different circuits: {later}")
+    if name == "F19":
+        g = TwoQubitQPDGate.from_instruction(CXGate())
+        qc = QuantumCircuit(2)
+        qc.append(g, [0, 1])
+        before = [float(c) for c in g.basis.coeffs]
+        sub = separate_circuit(qc, "AA").subcircuits["A"]
+        op = sub.data[0].operation
+        same = isinstance(op, TwoQubitQPDGate) and op is not g and op.basis is g.basis
+        if same:
+            op.basis.coeffs = [9.0] + [0.0] * (len(before) - 1)
+        visible = [float(c) for c in qc.data[0].operation.basis.coeffs] != before
+        return dict(fails=bool(same and visible),
+                    detail=f"separate_circuit(qc,'AA').subcircuits['A'].data[0].operation.basis is g.basis: {same}; "
+                           f"editing its coeffs visible through the input gate: {visible}")
+    if name == "F20":
+        from qiskit.circuit.library import UnitaryGate
+        hit = []
+        for entry, f in (("partition_circuit_qubits", lambda q: partition_circuit_qubits(q, "AA")),
+                         ("cut_gates", lambda q: cut_gates(q, [])[0]),
+                         ("partition_problem", lambda q: partition_problem(q, "AA").subcircuits["A"]),
+                         ("separate_circuit", lambda q: separate_circuit(q, "AA").subcircuits["A"]),
+                         ("find_cuts", lambda q: find_cuts(q, OptimizationParameters(seed=1), DeviceConstraints(2))[0]),
+                         ("decompose_qpd_instructions", lambda q: decompose_qpd_instructions(q, [], []))):
+            qc = QuantumCircuit(2)
+            qc.append(UnitaryGate(RZXGate(0.375).to_matrix()), [0, 1])
+            m_in = qc.data[0].operation.params[0]
+            ref = m_in.copy()
+            try:
+                out = f(qc)
+                m_out = [i.operation.params[0] for i in out.data if i.operation.name == "unitary"][0]
+                shared = m_out is m_in or np.shares_memory(m_out, m_in)
+                m_out[0, 0] = 5.0
+                if shared and not np.array_equal(qc.data[0].operation.params[0], ref):
+                    hit.append(entry)
+            except Exception as e:  # noqa: BLE001
+                hit.append(f"({entry}: {type(e).__name__})")
+        real = [h for h in hit if not h.startswith("(")]
+        return dict(fails=bool(real), detail="editing the matrix of the returned UnitaryGate in place changes the input circuit's "
+                                             "gate for: " + ", ".join(hit))
+    if name == "F21":
+        from qiskit.circuit.library import CZGate as _CZ
+        g = TwoQubitQPDGate.from_instruction(_CZ())
+        g.basis_id = 2                       # map 2 of the cz basis is (measurement, []): the second half decomposes to nothing
+        half_in = g.definition.data[1].operation
+        d_in = half_in.definition           # cached, EMPTY QuantumCircuit
+        qc = QuantumCircuit(2)
+        qc.append(g, [0, 1])
+        out = partition_circuit_qubits(qc, "AA")
+        og = out.data[0].operation
+        half_out = og._definition.data[1].operation if og._definition is not None else None
+        same = (half_out is not None and half_out is not half_in and half_out._definition is d_in and len(d_in.data) == 0)
+        if same:
+            half_out._definition.x(0)
+        visible = len(qc.data[0].operation.definition.data[1].operation.definition.data) == 1
+        return dict(fails=bool(same and visible),
+                    detail=f"the copy's placeholder half holds the input half's (empty) cached definition circuit: {same}; "
+                           f"appending to it through the returned gate shows in the input gate's definition: {visible}")
     return dict(fails=None, detail=f"unknown witness {name}")
